@@ -2,7 +2,7 @@
 Theorems: coq/Properties/C19.v over Model/Engine.v.  Tie: C01/C06/C10-style worlds through the real binary with --json
 (every stdout line parsed), events and counters vs the before/after snapshot diff and vs Engine.run; human-mode
 counters parsed from a twin run."""
-import json, os, re, shutil
+import json, os, re, shutil, subprocess
 import vlib, world, engine_world as ew
 import c01, c10
 from common import proof_phase, TRUSTED_COMMON
@@ -17,6 +17,42 @@ def human_counters(out):
         if m:
             c[key] = int(m.group(1))
     return c
+
+
+def watch_json_lines(sc):
+    """(b5d2480) --watch --json: the initial sync, one burst of changes, SIGINT -- every line on standard output is a JSON object"""
+    import signal, time
+    base = os.path.join(sc.dir, "watchjson")
+    os.makedirs(base + "/src"); os.makedirs(base + "/dst")
+    with open(base + "/src/f", "w") as f:
+        f.write("1")
+    env = dict(os.environ); env.update(sc.env)
+    out = open(base + "/stdout", "wb")
+    p = subprocess.Popen([world.SY, base + "/src", base + "/dst", "--watch", "--json"], env=env, stdout=out, stderr=subprocess.DEVNULL)
+    try:
+        time.sleep(1.2)
+        with open(base + "/src/g", "w") as f:
+            f.write("2")
+        deadline = time.time() + 8
+        while time.time() < deadline and not os.path.exists(base + "/dst/g"):
+            time.sleep(0.1)
+        time.sleep(0.3)
+        p.send_signal(signal.SIGINT)
+        p.wait(timeout=10)
+    except Exception:
+        p.kill()
+    out.close()
+    bad, n = [], 0
+    for line in open(base + "/stdout", "rb").read().decode("utf-8", "replace").split("\n")[:-1]:
+        n += 1
+        try:
+            if not isinstance(json.loads(line), dict):
+                bad.append(line)
+        except Exception:
+            bad.append(line)
+    propagated = os.path.exists(base + "/dst/g")
+    shutil.rmtree(base, ignore_errors=True)
+    return n, bad, propagated
 
 
 def run(tier, seed):
@@ -164,6 +200,32 @@ def run(tier, seed):
             if len(samples) < 2:
                 samples.append({"flags": fl, "events": raw["events"][:8], "summary": sm})
             shutil.rmtree(base, ignore_errors=True)
+        # (the other direction, 2nd fix of round 4) a symbolic link in the destination where the source has a regular file or a directory
+        # now: the path was there before the run -- the replacement is an update, never a creation; dry run and real run agree
+        for kc, (skind, dtarget) in enumerate([("file", "nowhere"), ("file", "other.txt"), ("dir", "realdir"), ("dir", "nowhere")]):
+            base = os.path.join(sc.dir, "kcr%d" % kc)
+            os.makedirs(base + "/src"); os.makedirs(base + "/dst/realdir")
+            open(base + "/dst/other.txt", "w").write("other"); open(base + "/src/other.txt", "w").write("other")
+            os.makedirs(base + "/src/realdir")
+            if skind == "file":
+                open(base + "/src/e", "w").write("now a file")
+            else:
+                os.makedirs(base + "/src/e"); open(base + "/src/e/child", "w").write("c")
+            os.symlink(dtarget, base + "/dst/e")
+            subprocess.run(["cp", "-p", base + "/src/other.txt", base + "/dst/other.txt"], check=True)
+            kinds = {}
+            for tag_, extra_ in (("dry", ["--dry-run"]), ("real", [])):
+                rr_ = world.run_sy([base + "/src", base + "/dst", "--json", "-j1"] + extra_, sc)
+                kinds[tag_] = sorted(json.loads(l)["type"] for l in rr_["out"].split("\n") if l.startswith("{") and json.loads(l).get("path", "").endswith("/dst/e"))
+                if tag_ == "real":
+                    sm_ = [json.loads(l) for l in rr_["out"].split("\n") if l.startswith("{") and '"summary"' in l]
+                    want_created = 1 if skind == "dir" else 0          # e/child is new; e itself was there
+                    if sm_ and (sm_[0]["files_created"], sm_[0]["files_updated"]) != (want_created, 1):
+                        viol.append({"world": "kind-change-report-%d" % kc, "why": "a %s replaces a destination symlink (-> %s): the summary counts created=%d updated=%d, the destination diff shows %d new path(s) and 1 changed"
+                                     % (skind, dtarget, sm_[0]["files_created"], sm_[0]["files_updated"], want_created)})
+            if kinds["real"] != ["update"] or kinds["dry"] != kinds["real"]:
+                viol.append({"world": "kind-change-report-%d" % kc, "why": "a %s replaces a destination symlink (-> %s): events for the path are %r (real run) and %r (dry run); the path existed before and is changed: one update" % (skind, dtarget, kinds["real"], kinds["dry"])})
+            shutil.rmtree(base, ignore_errors=True)
         # symlink entries (outside Engine.v): the event reported for the entry vs Links.link_event and vs what happened
         le_cases, le_obs = [], []
         lw = 0
@@ -248,7 +310,6 @@ def run(tier, seed):
             fh.write(b"old")
         os.utime(bb + b"/dst/upd_\xf1", ns=(ew.T0NS, ew.T0NS))
         env = dict(os.environ); env.update(sc.env)
-        import subprocess
         pr_ = subprocess.run([world.SY.encode(), bb + b"/src", bb + b"/dst", b"--json", b"-j1"], env=env, stdout=subprocess.PIPE, stderr=subprocess.PIPE)
         kinds = {}
         for l in pr_.stdout.decode("utf-8", "replace").split("\n"):
@@ -310,6 +371,11 @@ def run(tier, seed):
     res.cov["non_utf8_name_failure_runs"] = bytes_name_failures
     res.cov["stale_directory_with_unlisted_content_runs"] = stale_hidden_runs
     res.cov["worlds_with_stale_symlinks_in_destination"] = stale_links
+    with vlib.Scratch() as sc2:
+        wn, wbad, wprop = watch_json_lines(sc2)
+    res.cov["watch_json_stdout_lines"] = wn
+    if wbad:
+        viol.append({"world": "watch-json", "why": "--watch --json: %d of %d lines on standard output are not JSON objects, e.g. %r" % (len(wbad), wn, wbad[:3])})
     res.cov["evaluations"] = len(cases) * 2 + 72
     res.cov["distinct_nontrivial"] = len(nontriv)
     res.cov["model_impl_disagreements"] = len(diffs)
